@@ -3,7 +3,8 @@ from checks_path import *  # noqa
 from seq_common import run_seq, replay_seq
 
 PROPERTY = 'C02'
-PROPS = ['SalsaVerif.Props.C02']
+GEN = ['LogicVerify']
+PROPS = ['SalsaVerif.Props.C02', 'SalsaVerif.Props.GenLogicVerify']
 EXPLANATION = ('`c02_sound`: for every well-formed program, any initial inputs and ANY list of get / set(value, keep|LOW|MEDIUM|HIGH|NEVER) / '
                'synthetic-write operations the Lean engine model returns the from-scratch value; `c02_shortcut_sound`, `c02_write_marks`, '
                '`c02_revs_antitone`, `c02_never_write_frozen` (+ results corollary). Model tied to salsa by exact value + event-sequence '
